@@ -49,9 +49,9 @@ extern OPDEF ops_graph[];
 extern OPDEF ops_sepa[];
 
 /* set by an op when it detected that an input object was modified by the library */
-extern int h_input_modified;
+extern __thread int h_input_modified;
 /* time limit handed to time-limited functions (large unless clock injection is on) */
-extern double h_time_limit;
+extern __thread double h_time_limit;
 
 #define HCALL(x) do { CMR_ERROR _e = (x); if (_e) return _e; } while (0)
 
